@@ -37,7 +37,7 @@ fn pk(b: u8) -> Pubkey {
     Pubkey::new_from_array(k)
 }
 
-//@ prop=C36 tier=quick kind=hold
+//@ prop=C36 tier=experimental kind=hold
 //@ enc=InstructionAccess::to_instruction (default method), From<&InstructionAccount> for AccountMeta, InstructionAccountFlagContainer::get_flag
 //@ bound=up to 3 accounts with arbitrary flag bytes, keys from a 256-element universe, up to 3 data bytes, wallet present/absent, both values of mark_executor_wallet_as_signer; unwind 34 (32-byte Pubkey memcmp)
 #[kani::proof]
